@@ -216,7 +216,26 @@ func ruleC17(c *Ctx) {
 			if mutableKind {
 				// a reference-typed package variable is still immutable state when only the initialiser assigns it and
 				// all other code merely reads it (element-wise) or calls concurrency-safe methods on it
-				if ok, why := c.P.globalInitOnly(g); ok {
+				// what a table hands out must itself be immutable: plain values or functions (constructors), never shared
+				// objects (a map of hash.Hash instances is one hash state used by every caller)
+				immutableElem := func(e types.Type) bool {
+					if constLikeType(e) {
+						return true
+					}
+					_, isFn := e.Underlying().(*types.Signature)
+					return isFn
+				}
+				elemOK := true
+				switch u := t.Underlying().(type) {
+				case *types.Map:
+					elemOK = immutableElem(u.Elem())
+				case *types.Slice:
+					elemOK = immutableElem(u.Elem())
+				}
+				if ok, why := c.P.globalInitOnly(g); ok && !elemOK {
+					c.bad("C17-R1", shortName(pk.Pkg.Path()), "package variable "+g.Name()+" : "+typeStr(t), c.P.Pos(g.Pos()), "package-level table "+g.Name()+" hands out shared mutable objects ("+typeStr(t)+"): every caller works on the same instance")
+				} else if ok {
+					_ = why
 					c.ok("C17-R1", shortName(pk.Pkg.Path()), "package variable "+g.Name()+" : "+typeStr(t), c.P.Pos(g.Pos()), "assigned by the package initialiser only; every use is a read or a concurrency-safe method call")
 				} else {
 					c.bad("C17-R1", shortName(pk.Pkg.Path()), "package variable "+g.Name()+" : "+typeStr(t), c.P.Pos(g.Pos()), "library declares package-level mutable state ("+g.Name()+" "+typeStr(t)+"): "+why)
